@@ -34,14 +34,17 @@ _built = {}
 
 def build_harness(enc=False):
     """Build the harness against /repo's current working tree (path dependency,
-    incremental). Returns the binary path."""
-    key = "enc" if enc else "noenc"
+    incremental). Returns the binary path.  Flavours: False/"noenc" (serialize, async-tokio, overlapped-lists),
+    True/"enc" (+ encoding), "nool" (without overlapped-lists: the deserializer's other build variant)."""
+    key = "enc" if enc is True else ("noenc" if not enc else enc)
     if key in _built:
         return _built[key]
-    tdir = "target-enc" if enc else "target"
+    tdir = {"enc": "target-enc", "noenc": "target", "nool": "target-nool"}[key]
     cmd = ["cargo", "build", "--release", "--offline", "--target-dir", tdir]
-    if enc:
+    if key == "enc":
         cmd += ["--features", "enc"]
+    if key == "nool":
+        cmd += ["--no-default-features"]
     env = dict(os.environ, CARGO_NET_OFFLINE="true")
     t0 = time.time()
     p = subprocess.run(cmd, cwd=HARNESS, env=env, stdout=subprocess.PIPE, stderr=subprocess.STDOUT, text=True)
@@ -52,6 +55,9 @@ def build_harness(enc=False):
     _built[key] = b
     log(f"[build] harness ({key}) ready in {time.time()-t0:.1f}s")
     return b
+
+
+CURRENT_PID = None       # set by Acc(): the property being checked
 
 
 def harness(args, enc=False, timeout=3600, stdin=None):
@@ -67,6 +73,17 @@ def harness(args, enc=False, timeout=3600, stdin=None):
             summ = json.loads(l[8:])
         elif l.startswith("VIOLATION "):
             viol.append(l)
+    if summ is None and p.returncode in (101, -6, 134, -11, 139) and "panicked at" in p.stderr + p.stdout or \
+            summ is None and p.returncode in (-6, 134, -11, 139):
+        # the harness process itself died of a panic / abort that escaped its catch_unwind nets (e.g. a panic while a
+        # panic is being unwound, an abort in a destructor): a panic of the code under test is data, not a tool error
+        pid = CURRENT_PID or "UNKNOWN"
+        os.makedirs(REPLAY_DIR, exist_ok=True)
+        path = os.path.join(REPLAY_DIR, f"{pid}-harness-died-{abs(hash(' '.join(map(str, args)))) % 100000}.json")
+        json.dump({"kind": "harness-died", "args": [str(a) for a in args], "enc": enc, "returncode": p.returncode,
+                   "stderr_tail": p.stderr[-3000:], "stdout_tail": p.stdout[-1000:]}, open(path, "w"), indent=1)
+        viol.append(f"VIOLATION property={pid} replay={path}")
+        return {"runs": 0, "comparisons": 0, "violations": 1, "died": True}, viol, lines
     if summ is None and p.returncode not in (0, 1):
         raise ToolError(f"harness {' '.join(map(str,args))} failed rc={p.returncode}:\n{p.stdout[-2000:]}\n{p.stderr[-2000:]}")
     return summ, viol, lines
@@ -225,6 +242,8 @@ def open_deviations(prop=None):
 # ---------------------------------------------------------------- result accumulation / evidence
 class Acc:
     def __init__(self, pid, tier):
+        global CURRENT_PID
+        CURRENT_PID = pid
         self.pid, self.tier = pid, tier
         self.t0 = time.time()
         self.states = 0
